@@ -69,3 +69,37 @@ Print Assumptions C06_sum.
 Print Assumptions C06_mono.
 Print Assumptions C06_ok_iff.
 Print Assumptions C06_nonvacuous.
+
+From HT Require Import World.World World.Observe Proofs.WFProofs Proofs.PairConfigProofs.
+Theorem C06_rate_fixed_at_creation : forall ops w caller a0 a1 wl m0 m1 comm ld w',
+  WF w -> exec w (OFacCreatePair caller a0 a1 wl m0 m1 comm ld) = Ok w' ->
+  exists ps, w_pairs (run w' ops) (w_next w) = Some ps /\
+    p_comm ps = (match comm with Some c => c | None => DEFAULT_COMMISSION end) /\ p_a0 ps = a0 /\ p_a1 ps = a1.
+Proof. exact rate_fixed_at_creation. Qed.
+Print Assumptions C06_rate_fixed_at_creation.
+
+Theorem C06_create_pair_sets_rate : forall w caller a0 a1 wl m0 m1 comm ld w',
+  exec w (OFacCreatePair caller a0 a1 wl m0 m1 comm ld) = Ok w' ->
+  exists ps, w_pairs w' (w_next w) = Some ps /\
+    p_comm ps = (match comm with Some c => c | None => DEFAULT_COMMISSION end) /\ p_comm ps <= D /\
+    p_a0 ps = a0 /\ p_a1 ps = a1 /\ p_min0 ps = m0 /\ p_min1 ps = m1 /\ p_wl ps = wl.
+Proof. exact create_pair_sets_rate. Qed.
+Print Assumptions C06_create_pair_sets_rate.
+
+Theorem C06_rate_never_changes : forall ops w p ps,
+  WF w -> w_pairs w p = Some ps ->
+  exists ps', w_pairs (run w ops) p = Some ps' /\ same_pair_config ps ps'.
+Proof. exact run_keeps_pair_config. Qed.
+Print Assumptions C06_rate_never_changes.
+
+Theorem C06_rate_example :
+  WF pc_w0 /\
+  all_ok pc_w0 (pc_setup ++ pc_later) = true /\
+  pc_view (run pc_w0 pc_setup) 4 = Some (ANative 0, AToken 2, 5, 2375000000000000, 6, 6) /\
+  pc_view (run pc_w0 (pc_setup ++ pc_later)) 4 = Some (ANative 0, AToken 2, 5, 2375000000000000, 8, 6) /\
+  (* the swap was priced with that rate: 5000 in, 4964 out, commission 11 = floor(4975 * 0.002375) *)
+  w_bank (run pc_w0 (pc_setup ++ pc_later)) 4 0 = 1005000 /\
+  asset_balance (run pc_w0 (pc_setup ++ pc_later)) (AToken 2) 4 = Ok 995036 /\
+  q_simulation (run pc_w0 pc_setup) 4 (ANative 0) 5000 = Ok (4964, 25, 11).
+Proof. exact pair_config_example. Qed.
+Print Assumptions C06_rate_example.
